@@ -27,9 +27,15 @@ def main():
         i = args.index('--checks')
         checks = args[i + 1:]
         args = args[:i]
+    src = None
+    if '--src' in args:
+        i = args.index('--src')
+        src = args[i + 1]
+        args = args[:i] + args[i + 2:]
     name = args[0] if args else prop
-    src = '/tmp/seed_%s_out' % name if os.path.isdir(
-        '/tmp/seed_%s_out' % name) else '/tmp/seed_%s_out' % prop
+    if src is None:
+        src = '/tmp/seed_%s_out' % name if os.path.isdir(
+            '/tmp/seed_%s_out' % name) else '/tmp/seed_%s_out' % prop
     patch = os.path.join(src, 'patch.diff')
     demo = os.path.join(src, 'demo.py')
     ran = []
